@@ -264,6 +264,7 @@ type Node struct {
 	Probe   *common.Address // environment-reading contract (deploy_probe)
 	Agent   *common.Address // contract through which accounts reach the staking precompile (deploy_agent)
 	Sprayer  *common.Address // contract that pays 1 unit to eight fresh low addresses (scenario state)
+	BetweenBlocks bool
 	imported *Node // a chain started from this node's exported genesis (C19), if any
 }
 
@@ -417,7 +418,8 @@ func (n *Node) BeginBlockWith(req abci.RequestBeginBlock) abci.ResponseBeginBloc
 
 // Ctx is a context on the deliver state of the block in progress.
 func (n *Node) Ctx() sdk.Context {
-	return n.App.BaseApp.NewContext(false, n.Header)
+	// (between blocks - transactions built for the mempool - there is no deliver state: the check state)
+	return n.App.BaseApp.NewContext(n.BetweenBlocks, n.Header)
 }
 
 func (n *Node) Deliver(tx []byte) abci.ResponseDeliverTx {
@@ -563,6 +565,8 @@ type EthTxOpts struct {
 	Data     []byte
 	Access   ethtypes.AccessList
 	ChainID  *big.Int
+	// a legacy transaction signed without chain id (pre-EIP-155)
+	Unprotected bool
 }
 
 // BuildEthMsg creates and signs a MsgEthereumTx.
@@ -590,6 +594,9 @@ func BuildEthMsg(k Key, o EthTxOpts) (*evmtypes.MsgEthereumTx, error) {
 	msg := evmtypes.NewTx(args)
 	msg.From = ethAddr(k).Hex()
 	signer := ethtypes.LatestSignerForChainID(o.ChainID)
+	if o.Unprotected {
+		signer = ethtypes.HomesteadSigner{}
+	}
 	if err := msg.Sign(signer, utiltx.NewSigner(k.Priv)); err != nil {
 		return nil, err
 	}
